@@ -45,6 +45,7 @@ fn entry_and_class(p: &Prog) -> (String, String) {
 impl Lane for C13 {
     const ID: &'static str = "C13";
     type Body = Body;
+    const AMBIENT: bool = false;
 
     fn draw(rng: &mut Rng, _tier: Tier, run_index: u64) -> Scenario<Body> {
         let cat = catalogue();
